@@ -10,8 +10,9 @@ def load_checks(props):
     """Each harness/cXX.py carries its own MANIFEST dict(text, note, technique, ref)."""
     import importlib
     out = {}
+    claimed = json.loads((VERIF / "harness" / "claimed.json").read_text())
     for pid in props:
-        if not (VERIF / "harness" / f"{pid.lower()}.py").exists():
+        if pid not in claimed or not (VERIF / "harness" / f"{pid.lower()}.py").exists():
             continue
         m = importlib.import_module(f"harness.{pid.lower()}")
         if getattr(m, "MANIFEST", None):
